@@ -1,4 +1,684 @@
-use crate::ctx::Ctx;
-pub fn run_c08(_ctx: &mut Ctx) { unimplemented!() }
-pub fn run_c09(_ctx: &mut Ctx) { unimplemented!() }
-pub fn run_c10(_ctx: &mut Ctx) { unimplemented!() }
+//! C08 (rows / rows_mut), C09 (col / col_mut), C10 (cells / cells_mut / IntoIterator forms):
+//! every iterator is driven by call scripts side by side with std's `vec::IntoIter` over the expected
+//! item list (the "ideal double-ended exact-size sequence"); items are compared by address.
+use crate::ctx::*;
+use crate::model::{shapes, windows};
+use crate::recv::Win;
+use toodee::*;
+
+type D = (usize, usize);
+
+pub trait Item {
+    fn desc(&self) -> D;
+    /// write fresh values through a mutable item (no-op for shared items)
+    fn poke(self, next: &mut u32);
+}
+impl<'a> Item for &'a [u32] {
+    fn desc(&self) -> D {
+        (self.as_ptr() as usize, self.len())
+    }
+    fn poke(self, _n: &mut u32) {}
+}
+impl<'a> Item for &'a mut [u32] {
+    fn desc(&self) -> D {
+        (self.as_ptr() as usize, self.len())
+    }
+    fn poke(self, n: &mut u32) {
+        for c in self.iter_mut() {
+            *c = *n;
+            *n += 1;
+        }
+    }
+}
+impl<'a> Item for &'a u32 {
+    fn desc(&self) -> D {
+        (*self as *const u32 as usize, 1)
+    }
+    fn poke(self, _n: &mut u32) {}
+}
+impl<'a> Item for &'a mut u32 {
+    fn desc(&self) -> D {
+        (&**self as *const u32 as usize, 1)
+    }
+    fn poke(self, n: &mut u32) {
+        *self = *n;
+        *n += 1;
+    }
+}
+
+#[derive(Clone, Copy, Debug, Hash, PartialEq, Eq)]
+pub enum N {
+    Z,
+    One,
+    Two,
+    RemM1,
+    Rem,
+    RemP1,
+    CM1,
+    C,
+    CP1,
+    C2,
+    CR,
+    Max,
+    MaxDivP1,
+    P63,
+    Lit(usize),
+}
+pub const NS: [N; 14] = [N::Z, N::One, N::Two, N::RemM1, N::Rem, N::RemP1, N::CM1, N::C, N::CP1, N::C2, N::CR, N::Max, N::MaxDivP1, N::P63];
+
+#[derive(Clone, Copy, Debug, Hash, PartialEq, Eq)]
+pub enum Call {
+    Next,
+    NextBack,
+    Len,
+    Nth(N),
+    NthBack(N),
+    Idx(N),
+}
+#[derive(Clone, Copy, Debug, Hash, PartialEq, Eq)]
+pub enum Term {
+    Drop,
+    Count,
+    Last,
+    Fold,
+    RFold,
+    Collect,
+    CollectRev,
+}
+pub const TERMS: [Term; 7] = [Term::Drop, Term::Count, Term::Last, Term::Fold, Term::RFold, Term::Collect, Term::CollectRev];
+
+pub struct Geo {
+    /// window columns (what TooDeeIterator::num_cols must report; also the row-crossing unit)
+    pub c: usize,
+    pub total: usize,
+    pub stride: usize,
+}
+
+fn resolve(n: N, rem: usize, g: &Geo) -> usize {
+    match n {
+        N::Z => 0,
+        N::One => 1,
+        N::Two => 2,
+        N::RemM1 => rem.saturating_sub(1),
+        N::Rem => rem,
+        N::RemP1 => rem + 1,
+        N::CM1 => g.c.saturating_sub(1),
+        N::C => g.c,
+        N::CP1 => g.c + 1,
+        N::C2 => 2 * g.c,
+        N::CR => g.total,
+        N::Max => usize::MAX,
+        N::MaxDivP1 => (usize::MAX / g.stride.max(1)).saturating_add(1),
+        N::P63 => 1usize << 63,
+        N::Lit(v) => v,
+    }
+}
+
+pub struct IterKind<'a> {
+    pub name: &'a str,
+    /// Some(cols) if the iterator advertises TooDeeIterator::num_cols
+    pub indexable: bool,
+}
+
+/// Drive `it` through `script` + `term` against the ideal sequence. Returns the items that are still
+/// held by the caller (for the write-through check) or Err(()) after reporting a violation.
+pub fn drive<I>(
+    ctx: &mut Ctx,
+    name: &str,
+    mut it: I,
+    expected: &[D],
+    script: &[Call],
+    term: Term,
+    g: &Geo,
+    index: Option<&dyn Fn(&I, usize) -> D>,
+) -> Result<Vec<I::Item>, ()>
+where
+    I: DoubleEndedIterator + ExactSizeIterator,
+    I::Item: Item,
+{
+    let mut ideal = expected.to_vec().into_iter();
+    let mut held: Vec<I::Item> = vec![];
+    let fail = |ctx: &mut Ctx, what: &str, step: usize, got: String, want: String| {
+        ctx.violation(name, what, format!("script {:?} term {:?} step {}: got {} ideal {} (expected items {}, cols {}, stride {})", script, term, step, got, want, expected.len(), g.c, g.stride));
+    };
+    for (step, call) in script.iter().enumerate() {
+        let rem = ideal.len();
+        // cursor state in the ideal sequence (lo/hi positions) for the coverage counters
+        let lo = expected.len() - rem; // not exact after back consumption, good enough as a class
+        ctx.seen("iter_states", (name, *call, rem.min(3), if g.c > 0 { lo % g.c.max(1) != 0 } else { false }));
+        match *call {
+            Call::Next | Call::NextBack | Call::Nth(_) | Call::NthBack(_) => {
+                let (got, want) = match *call {
+                    Call::Next => (it.next(), ideal.next()),
+                    Call::NextBack => (it.next_back(), ideal.next_back()),
+                    Call::Nth(n) => {
+                        let n = resolve(n, rem, g);
+                        (it.nth(n), ideal.nth(n))
+                    }
+                    Call::NthBack(n) => {
+                        let n = resolve(n, rem, g);
+                        (it.nth_back(n), ideal.nth_back(n))
+                    }
+                    _ => unreachable!(),
+                };
+                let gd = got.as_ref().map(|x| x.desc());
+                if gd != want {
+                    fail(ctx, "iter:item", step, format!("{:x?}", gd), format!("{:x?}", want));
+                    return Err(());
+                }
+                if let Some(x) = got {
+                    held.push(x);
+                }
+            }
+            Call::Len => {
+                let l = it.len();
+                let sh = it.size_hint();
+                if l != ideal.len() || sh != (ideal.len(), Some(ideal.len())) {
+                    fail(ctx, "iter:len", step, format!("len {} size_hint {:?}", l, sh), format!("{}", ideal.len()));
+                    return Err(());
+                }
+            }
+            Call::Idx(n) => {
+                if let Some(ix) = index {
+                    let i = resolve(n, rem, g);
+                    let want = ideal.as_slice().get(i).copied();
+                    let got = catches(|| ix(&it, i)).ok();
+                    if got != want {
+                        fail(ctx, "iter:index", step, format!("[{}] -> {:x?}", i, got), format!("{:x?}", want));
+                        return Err(());
+                    }
+                    ctx.count("index_calls", 1);
+                }
+            }
+        }
+        ctx.count("iter_calls", 1);
+    }
+    // every prefix also agrees on the remaining length
+    if it.len() != ideal.len() {
+        fail(ctx, "iter:len", script.len(), format!("len {}", it.len()), format!("{}", ideal.len()));
+        return Err(());
+    }
+    match term {
+        Term::Drop => {}
+        Term::Count => {
+            let (a, b) = (it.count(), ideal.count());
+            if a != b {
+                fail(ctx, "iter:count", script.len(), a.to_string(), b.to_string());
+                return Err(());
+            }
+        }
+        Term::Last => {
+            let (a, b) = (it.last(), ideal.last());
+            if a.as_ref().map(|x| x.desc()) != b {
+                fail(ctx, "iter:last", script.len(), format!("{:x?}", a.as_ref().map(|x| x.desc())), format!("{:x?}", b));
+                return Err(());
+            }
+            if let Some(x) = a {
+                held.push(x);
+            }
+        }
+        Term::Fold | Term::RFold | Term::Collect | Term::CollectRev => {
+            let (a, b): (Vec<I::Item>, Vec<D>) = match term {
+                Term::Fold => (
+                    it.fold(vec![], |mut acc, x| {
+                        acc.push(x);
+                        acc
+                    }),
+                    ideal.collect(),
+                ),
+                Term::RFold => (
+                    it.rfold(vec![], |mut acc, x| {
+                        acc.push(x);
+                        acc
+                    }),
+                    ideal.rev().collect(),
+                ),
+                Term::Collect => (it.collect(), ideal.collect()),
+                _ => (it.rev().collect(), ideal.rev().collect()),
+            };
+            let ad: Vec<D> = a.iter().map(|x| x.desc()).collect();
+            if ad != b {
+                fail(ctx, "iter:rest", script.len(), format!("{:x?}", &ad[..ad.len().min(8)]), format!("{:x?}", &b[..b.len().min(8)]));
+                return Err(());
+            }
+            held.extend(a);
+        }
+    }
+    ctx.count("calls", 1);
+    Ok(held)
+}
+
+// ------------------------------------------------------------------------------------------------
+// receivers and iterator kinds
+
+#[derive(Clone, Copy, Debug, Hash, PartialEq, Eq)]
+pub enum RK {
+    Owned,
+    View,
+    ViewOfView,
+    ViewMut,
+    ViewMutNested,
+    ViewOfViewMut,
+}
+#[derive(Clone, Copy, Debug, Hash, PartialEq, Eq)]
+pub enum IK {
+    Rows,
+    RowsMut,
+    Col(usize),
+    ColMut(usize),
+    Cells,
+    CellsMut,
+    RefIntoIter,
+    MutIntoIter,
+}
+
+fn parent_of(pc: usize, pr: usize) -> TooDee<u32> {
+    TooDee::from_box(pc, pr, (0..(pc * pr) as u32).map(|i| 1000 + i).collect::<Vec<_>>().into_boxed_slice())
+}
+
+/// expected item descriptors of iterator kind `ik` over `win` of a parent at `base`
+fn expected_items(ik: IK, base: usize, pc: usize, win: Win) -> Vec<D> {
+    let (s, e) = win;
+    let (wc, wr) = (e.0 - s.0, e.1 - s.1);
+    if wc == 0 || wr == 0 {
+        return vec![];
+    }
+    let cell = |c: usize, r: usize| base + ((s.1 + r) * pc + s.0 + c) * 4;
+    match ik {
+        IK::Rows | IK::RowsMut => (0..wr).map(|r| (cell(0, r), wc)).collect(),
+        IK::Col(c) | IK::ColMut(c) => (0..wr).map(|r| (cell(c, r), 1)).collect(),
+        _ => (0..wr).flat_map(|r| (0..wc).map(move |c| (c, r))).map(|(c, r)| (cell(c, r), 1)).collect(),
+    }
+}
+
+struct ScriptRun<'s> {
+    script: &'s [Call],
+    term: Term,
+}
+
+/// Run one script on one iterator kind of one receiver; includes the write-through check.
+fn run_one(ctx: &mut Ctx, prop: &str, pshape: (usize, usize), win: Win, rk: RK, ik: IK, sr: &ScriptRun<'_>) -> bool {
+    let (pc, pr) = pshape;
+    let mut parent = parent_of(pc, pr);
+    let base = parent.data().as_ptr() as usize;
+    let before: Vec<u32> = parent.data().to_vec();
+    let (s, e) = win;
+    let (mut wc, mut wr) = (e.0 - s.0, e.1 - s.1);
+    if wc == 0 || wr == 0 {
+        wc = 0;
+        wr = 0;
+    }
+    let exp = expected_items(ik, base, pc, win);
+    let g = Geo { c: wc, total: wc * wr, stride: pc.max(1) };
+    let name = format!("{:?}/{:?}", rk, match ik {
+        IK::Col(_) => "Col".to_string(),
+        IK::ColMut(_) => "ColMut".to_string(),
+        o => format!("{:?}", o),
+    });
+    let mut next_val = 5000u32;
+    let mut poked: Vec<D> = vec![];
+    let script = sr.script;
+    let term = sr.term;
+
+    macro_rules! shared_on {
+        ($x:expr) => {{
+            let x = $x;
+            match ik {
+                IK::Rows => {
+                    let it = x.rows();
+                    if TooDeeIterator::num_cols(&it) != wc {
+                        ctx.violation(&name, "iter:num_cols", format!("Rows::num_cols()={} expected {}", TooDeeIterator::num_cols(&it), wc));
+                    }
+                    drive(ctx, &name, it, &exp, script, term, &g, None).map(|_| ())
+                }
+                IK::Col(c) => {
+                    let it = x.col(c);
+                    let ix = |i: &Col<'_, u32>, k: usize| -> D { (&i[k] as *const u32 as usize, 1) };
+                    drive(ctx, &name, it, &exp, script, term, &g, Some(&ix)).map(|_| ())
+                }
+                IK::Cells => {
+                    let it = x.cells();
+                    if TooDeeIterator::num_cols(&it) != wc {
+                        ctx.violation(&name, "iter:num_cols", format!("Cells::num_cols()={} expected {}", TooDeeIterator::num_cols(&it), wc));
+                    }
+                    drive(ctx, &name, it, &exp, script, term, &g, None).map(|_| ())
+                }
+                IK::RefIntoIter => {
+                    let it = (&x).into_iter();
+                    drive(ctx, &name, it, &exp, script, term, &g, None).map(|_| ())
+                }
+                _ => unreachable!(),
+            }
+        }};
+    }
+    macro_rules! mut_on {
+        ($x:expr) => {{
+            let x = $x;
+            match ik {
+                IK::RowsMut => {
+                    let it = x.rows_mut();
+                    if TooDeeIterator::num_cols(&it) != wc {
+                        ctx.violation(&name, "iter:num_cols", format!("RowsMut::num_cols()={} expected {}", TooDeeIterator::num_cols(&it), wc));
+                    }
+                    drive(ctx, &name, it, &exp, script, term, &g, None).map(|h| {
+                        for i in h {
+                            poked.push(i.desc());
+                            i.poke(&mut next_val)
+                        }
+                    })
+                }
+                IK::ColMut(c) => {
+                    let it = x.col_mut(c);
+                    let ix = |i: &ColMut<'_, u32>, k: usize| -> D { (&i[k] as *const u32 as usize, 1) };
+                    drive(ctx, &name, it, &exp, script, term, &g, Some(&ix)).map(|h| {
+                        for i in h {
+                            poked.push(i.desc());
+                            i.poke(&mut next_val)
+                        }
+                    })
+                }
+                IK::CellsMut => {
+                    let it = x.cells_mut();
+                    drive(ctx, &name, it, &exp, script, term, &g, None).map(|h| {
+                        for i in h {
+                            poked.push(i.desc());
+                            i.poke(&mut next_val)
+                        }
+                    })
+                }
+                IK::MutIntoIter => {
+                    let it = x.into_iter();
+                    drive(ctx, &name, it, &exp, script, term, &g, None).map(|h| {
+                        for i in h {
+                            poked.push(i.desc());
+                            i.poke(&mut next_val)
+                        }
+                    })
+                }
+                _ => unreachable!(),
+            }
+        }};
+    }
+    let is_mut = matches!(ik, IK::RowsMut | IK::ColMut(_) | IK::CellsMut | IK::MutIntoIter);
+    let res = catches(|| -> Result<(), ()> {
+        match (rk, is_mut) {
+            (RK::Owned, false) => shared_on!(&parent),
+            (RK::View, false) => {
+                let v = parent.view(s, e);
+                if v.size() != (wc, wr) {
+                    ctx.violation(&name, "view-size", format!("{:?}", v.size()));
+                }
+                shared_on!(&v)
+            }
+            (RK::ViewOfView, false) => {
+                let (outer, inner) = crate::recv::outer_of(win, pc, pr);
+                let o = parent.view(outer.0, outer.1);
+                let v = o.view(inner.0, inner.1);
+                shared_on!(&v)
+            }
+            (RK::ViewMut, false) => {
+                let v = parent.view_mut(s, e);
+                shared_on!(&v)
+            }
+            (RK::ViewOfViewMut, false) => {
+                let (outer, inner) = crate::recv::outer_of(win, pc, pr);
+                let o = parent.view_mut(outer.0, outer.1);
+                let v = o.view(inner.0, inner.1);
+                shared_on!(&v)
+            }
+            (RK::ViewMutNested, false) => {
+                let (outer, inner) = crate::recv::outer_of(win, pc, pr);
+                let mut o = parent.view_mut(outer.0, outer.1);
+                let v = o.view_mut(inner.0, inner.1);
+                shared_on!(&v)
+            }
+            (RK::Owned, true) => mut_on!(&mut parent),
+            (RK::ViewMut, true) => {
+                let mut v = parent.view_mut(s, e);
+                mut_on!(&mut v)
+            }
+            (RK::ViewMutNested, true) => {
+                let (outer, inner) = crate::recv::outer_of(win, pc, pr);
+                let mut o = parent.view_mut(outer.0, outer.1);
+                let mut v = o.view_mut(inner.0, inner.1);
+                mut_on!(&mut v)
+            }
+            _ => unreachable!(),
+        }
+    });
+    let mut ok = true;
+    match res {
+        Err(msg) => {
+            if msg.starts_with("harness:") {
+                panic!("{}", msg);
+            }
+            ctx.violation(&name, "iter:panic", format!("script {:?} term {:?} on window {:?} of {}x{}: {}", script, term, win, pc, pr, msg));
+            ok = false;
+        }
+        Ok(Err(())) => ok = false,
+        Ok(Ok(())) => {}
+    }
+    // write-through / nothing else changed
+    if ok {
+        let mut want = before.clone();
+        let mut v = 5000u32;
+        for (a, l) in &poked {
+            let i0 = (a - base) / 4;
+            for k in 0..*l {
+                want[i0 + k] = v;
+                v += 1;
+            }
+        }
+        if parent.data() != &want[..] {
+            ctx.violation(&name, "iter:write-through", format!("script {:?} term {:?} window {:?} of {}x{}: parent {:?} expected {:?}", script, term, win, pc, pr, parent.data(), want));
+            ok = false;
+        }
+        // yielded mutable items must be pairwise disjoint
+        let mut ranges: Vec<(usize, usize)> = poked.iter().map(|(a, l)| (*a, a + l * 4)).collect();
+        ranges.sort();
+        for w in ranges.windows(2) {
+            if w[0].1 > w[1].0 {
+                ctx.violation(&name, "iter:overlap", format!("script {:?}: yielded items overlap {:x?}", script, w));
+                ok = false;
+            }
+        }
+        ctx.count("items_written_through", poked.len() as u64);
+    }
+    let _ = prop;
+    ok
+}
+
+fn alphabet(full: bool, with_idx: bool) -> Vec<Call> {
+    let mut a = vec![Call::Next, Call::NextBack, Call::Len];
+    let ns: Vec<N> = if full { NS.to_vec() } else { vec![N::Z, N::One, N::RemM1, N::C] };
+    for n in &ns {
+        a.push(Call::Nth(*n));
+        a.push(Call::NthBack(*n));
+    }
+    if with_idx {
+        for n in [N::Z, N::One, N::RemM1, N::Rem, N::Max, N::MaxDivP1, N::P63] {
+            a.push(Call::Idx(n));
+        }
+    }
+    a
+}
+
+fn scripts_for(ctx: &Ctx, ik: IK, depth_full: usize, depth_red: usize, nrandom: usize, seed_mix: u64) -> Vec<(Vec<Call>, Term)> {
+    let with_idx = matches!(ik, IK::Col(_) | IK::ColMut(_));
+    let mut out: Vec<(Vec<Call>, Term)> = vec![];
+    let full = alphabet(true, with_idx);
+    let red = alphabet(false, with_idx && false);
+    // depth 0 and 1: all terms
+    for t in TERMS {
+        out.push((vec![], t));
+        for a in &full {
+            out.push((vec![*a], t));
+        }
+    }
+    let mut h = 0usize;
+    if depth_full >= 2 {
+        for a in &full {
+            for b in &full {
+                h += 1;
+                out.push((vec![*a, *b], TERMS[h % 7]));
+                out.push((vec![*a, *b], TERMS[(h / 7 + 3) % 7]));
+            }
+        }
+    }
+    if depth_full >= 3 {
+        for a in &full {
+            for b in &full {
+                for c in &full {
+                    h += 1;
+                    out.push((vec![*a, *b, *c], TERMS[h % 7]));
+                }
+            }
+        }
+    }
+    if depth_red >= 3 && depth_full < 3 {
+        for a in &red {
+            for b in &red {
+                for c in &red {
+                    h += 1;
+                    out.push((vec![*a, *b, *c], TERMS[h % 7]));
+                }
+            }
+        }
+    }
+    if depth_red >= 4 {
+        for a in &red {
+            for b in &red {
+                for c in &red {
+                    for d in &red {
+                        h += 1;
+                        out.push((vec![*a, *b, *c, *d], TERMS[h % 7]));
+                    }
+                }
+            }
+        }
+    }
+    let mut rng = Rng::from_parts(ctx.seed, seed_mix, 77);
+    for _ in 0..nrandom {
+        let len = rng.range(4, 12);
+        let s: Vec<Call> = (0..len)
+            .map(|_| {
+                if rng.chance(1, 2) {
+                    *rng.pick(&[Call::Next, Call::NextBack, Call::Len, Call::Nth(N::Z), Call::NthBack(N::Z), Call::Nth(N::One), Call::NthBack(N::One)])
+                } else {
+                    *rng.pick(&full)
+                }
+            })
+            .collect();
+        out.push((s, *rng.pick(&TERMS)));
+    }
+    out
+}
+
+fn run_iter_prop(ctx: &mut Ctx, prop: &'static str) {
+    let (n, depth_full, depth_red, nrandom) = match (ctx.scale, ctx.tier) {
+        (Scale::Miri, Tier::Quick) => (2, 1, 0, 2),
+        (Scale::Miri, Tier::Thorough) => (3, 1, 0, 6),
+        (Scale::Vg, _) => (3, 2, 0, 10),
+        (Scale::Native, Tier::Quick) => (4, 2, 3, 30),
+        (Scale::Native, Tier::Thorough) => (6, 2, 4, 200),
+    };
+    for (pc, pr) in shapes(n) {
+        for win in windows(pc, pr) {
+            let (s, e) = win;
+            let (wc, wr) = (e.0 - s.0, e.1 - s.1);
+            let wcz = if wr == 0 { 0 } else { wc };
+            // empty windows: keep a sample of positions only
+            if (wc == 0 || wr == 0) && (s.0 + 2 * s.1 + e.0 + e.1) % 3 != 0 {
+                continue;
+            }
+            for rk in [RK::Owned, RK::View, RK::ViewOfView, RK::ViewMut, RK::ViewMutNested, RK::ViewOfViewMut] {
+                if rk == RK::Owned && win != ((0, 0), (pc, pr)) {
+                    continue;
+                }
+                // big native sweeps: nested receivers only on a subset
+                if matches!(rk, RK::ViewOfView | RK::ViewOfViewMut) && (pc + pr) % 2 == 1 && ctx.scale == Scale::Native && pc > 3 {
+                    continue;
+                }
+                let mut iks: Vec<IK> = vec![];
+                let can_mut = matches!(rk, RK::Owned | RK::ViewMut | RK::ViewMutNested);
+                match prop {
+                    "C08" => {
+                        iks.push(IK::Rows);
+                        if can_mut {
+                            iks.push(IK::RowsMut);
+                        }
+                    }
+                    "C09" => {
+                        for c in 0..wcz {
+                            iks.push(IK::Col(c));
+                            if can_mut {
+                                iks.push(IK::ColMut(c));
+                            }
+                        }
+                    }
+                    _ => {
+                        iks.push(IK::Cells);
+                        iks.push(IK::RefIntoIter);
+                        if can_mut {
+                            iks.push(IK::CellsMut);
+                            iks.push(IK::MutIntoIter);
+                        }
+                    }
+                }
+                for ik in iks {
+                    if !ctx.case(|| format!("{} parent={}x{} win={:?} recv={:?} iter={:?}", prop, pc, pr, win, rk, ik)) {
+                        if ctx.done() {
+                            return;
+                        }
+                        continue;
+                    }
+                    let scripts = scripts_for(ctx, ik, depth_full, depth_red, nrandom, ctx.cur_idx);
+                    let mut okc = 0u64;
+                    for (script, term) in &scripts {
+                        if run_one(ctx, prop, (pc, pr), win, rk, ik, &ScriptRun { script, term: *term }) {
+                            okc += 1;
+                        }
+                    }
+                    if okc == scripts.len() as u64 {
+                        ctx.nontrivial((prop, pc, pr, win, rk, ik));
+                    }
+                    ctx.count("scripts", scripts.len() as u64);
+                }
+            }
+            // col(c) / col_mut(c) with c out of range must panic (C09)
+            if prop == "C09" && ctx.case(|| format!("C09 parent={}x{} win={:?} col-out-of-range", pc, pr, win)) {
+                let mut parent = parent_of(pc, pr);
+                for c in [wcz, wcz + 1, usize::MAX, (usize::MAX / pc.max(1)).wrapping_add(1).max(wcz)] {
+                    let r1 = catches(|| parent.view(s, e).col(c).len());
+                    let r2 = catches(|| parent.view_mut(s, e).col(c).len());
+                    let r3 = catches(|| parent.view_mut(s, e).col_mut(c).len());
+                    let mut rs = vec![("View::col", r1), ("ViewMut::col", r2), ("ViewMut::col_mut", r3)];
+                    if win == ((0, 0), (pc, pr)) {
+                        rs.push(("TooDee::col", catches(|| parent.col(c).len())));
+                        rs.push(("TooDee::col_mut", catches(|| parent.col_mut(c).len())));
+                    }
+                    for (n, r) in rs {
+                        ctx.count("calls", 1);
+                        match r {
+                            Ok(l) => ctx.violation(n, "invalid-call-accepted", format!("col({}) on window {:?} of {}x{} returned an iterator of len {}", c, win, pc, pr, l)),
+                            Err(_) => {
+                                ctx.count("rejected", 1);
+                                ctx.nontrivial(("C09rej", pc, pr, win, n, c));
+                            }
+                        }
+                    }
+                }
+            }
+        }
+    }
+}
+
+pub fn run_c08(ctx: &mut Ctx) {
+    run_iter_prop(ctx, "C08")
+}
+pub fn run_c09(ctx: &mut Ctx) {
+    run_iter_prop(ctx, "C09")
+}
+pub fn run_c10(ctx: &mut Ctx) {
+    run_iter_prop(ctx, "C10")
+}
